@@ -40,3 +40,14 @@ def lsq_configs(tier, axes):
                 d = dict(default)
                 d[n] = v
                 yield d
+        # interacting pairs that one-at-a-time variation misses (each was a defect of the pinned tree)
+        for pair in PAIRS:
+            if all(n in axes and v in axes[n][1] for n, v in pair.items()):
+                d = dict(default)
+                d.update(pair)
+                yield d
+
+
+PAIRS = [
+    {"K": "mat", "baseline": "scalar"},      # fix fb87363: K @ (one-element baseline)
+]
